@@ -2,7 +2,8 @@
 model is parameterised by are present in the current source:
 
   c_names       blob/tree.rs NodeStreamer::next refuses node names that are not a single normal
-                path component before `self.path.join(node.name())`
+                path component before `self.path.join(node.name())` — and the string it tests is
+                that same unescaped `node.name()`, not the stored escaped `node.name`
   c_exists      commands/restore.rs collect_and_prepare: after a type mismatch the node is processed
                 with exists = !opts.delete (not a constant `true`)
   c_sparse_pre  commands/restore.rs restore_contents: the write of an all-zero blob is skipped only
@@ -39,6 +40,25 @@ def gen(repo):
                and re.search(r"components\.next\(\), components\.next\(\)", head) is not None)
     if not guarded and ("Component" in head or "return Some(Err(" in head):
         raise ExtractError("NodeStreamer::next: a name check of an unrecognised shape precedes the join")
+    meta["name_check_on"] = None
+    if guarded:
+        # WHICH string is checked: it has to be the very string that is joined afterwards, i.e. the
+        # unescaped `node.name()`; the stored `node.name` is the Go-style escaped spelling
+        # (`\x2e\x2e` is one normal component as a string and unescapes to `..`)
+        m = re.search(r"let name = (.*?);", head)
+        if not m:
+            raise ExtractError("NodeStreamer::next: the checked string is not bound by `let name = ...;`")
+        checked = m.group(1).strip()
+        if checked == "node.name()":
+            if not re.search(r"Path::new\(&name\)\.components\(\)", head) or "if comp == &*name" not in head:
+                raise ExtractError("NodeStreamer::next: the name check does not test Path::new(&name).components() / comp == &*name")
+            meta["name_check_on"] = "node.name() (unescaped, the joined string)"
+        elif re.fullmatch(r"&?node\.name(\.as_str\(\)|\.clone\(\)|\.as_ref\(\))?", checked):
+            # a check of the stored spelling guarantees nothing about the joined path
+            meta["name_check_on"] = "node.name (stored, escaped spelling) - not the joined string"
+            guarded = False
+        else:
+            raise ExtractError("NodeStreamer::next: the name check tests an unrecognised string: " + checked)
     meta["c_names"] = guarded
     # --- collect_and_prepare, Equal branch
     cb = squash(fn_body(rest, "collect_and_prepare"))
@@ -46,6 +66,12 @@ def gen(repo):
     if not m:
         raise ExtractError("collect_and_prepare: Ordering::Equal arm not found")
     eq = m.group(1)
+    # the merge-walk compares the two paths component-wise (Path::cmp), the order both streams are sorted in
+    if "match destination.path().cmp(&dest.path(path)) {" not in cb:
+        raise ExtractError("collect_and_prepare: the merge-walk no longer compares `destination.path().cmp(&dest.path(path))` (component-wise Path order)")
+    if ".sort_by_file_name()" not in cb:
+        raise ExtractError("collect_and_prepare: the destination walk is no longer sorted by file name")
+    meta["merge_cmp"] = "Path::cmp (component-wise)"
     if "node.is_dir() && !destination.file_type().is_dir()" not in eq or "node.is_special()" not in eq:
         raise ExtractError("collect_and_prepare: type-mismatch test has changed")
     if "process_node(path, node, true)?" in eq:
